@@ -2,13 +2,19 @@
 
 Correspondence: random schemas (modules, submodules with nested includes, identities with several bases, diamonds,
 equal names in different modules, arbitrary prefixes, identityref leaves directly and through typedefs; cyclic,
-dangling and free-form variants) are rendered as YANG text for the implementation (harness command `process`:
-Modules.Parse + Process + dump of every Identity.Values and every leaf's YangType.IdentityBase) and as the abstract
-schema for the extracted model (Model/Identity.v, command `idres`).  Compared: error presence; for clean runs the
-Values list of every identity (as ordered lists) and base + values of every identityref leaf.  Every Go case is run
-three times (map iteration order differs per run) and the model under several iteration oracles: all must agree.
-For the variants whose derivation graph the generator knows (clean ones) the expected lists are also computed here,
-independently of the model, and compared with the implementation."""
+dangling and free-form variants; variant rev: two or three loaded revisions of one module -- and sometimes of a
+submodule -- defining the same and different identities, derived identities in each, submodules included by one or
+several of them, imports from other modules with and without revision-date, also of revisions that are not loaded)
+are rendered as YANG text for the implementation (harness command `idproc`, harness/go/c11.go: Modules.Parse +
+Process + every Identity.Values and every identityref leaf's YangType.IdentityBase, identities named by the full
+name -- name@revision -- of the (sub)module that declares them) and as the abstract schema for the extracted model
+(Model/Identity.v, command `idres`).  Compared: error presence; for clean runs the Values list of every declaration
+(as ordered lists) and base + values of every identityref leaf.  Every Go case is run three times (map iteration
+order differs per run) and the model under several iteration oracles: all must agree.  For the variants whose
+derivation graph the generator knows (clean ones) the expected lists are also computed here, independently of the
+model, and compared with the implementation.  Two metamorphic families re-run a schema with a different history
+(parts fetched by Process from the search path; submodules parsed between two Process calls) and demand the same
+result."""
 import json
 import random
 import shutil
@@ -28,11 +34,14 @@ def hx(s):
 
 # ------------------------------------------------------------------ schema generation
 
+DATES = ["2019-03-09", "2020-01-01", "2021-06-15", "2022-12-31"]
+
+
 class Mod:
-    def __init__(self, name, sub, prefix, belongs=""):
-        self.name, self.sub, self.prefix, self.belongs = name, sub, prefix, belongs
-        self.imports = []      # (prefix, module name)
-        self.includes = []     # submodule names
+    def __init__(self, name, sub, prefix, belongs="", rev=""):
+        self.name, self.sub, self.prefix, self.belongs, self.rev = name, sub, prefix, belongs, rev
+        self.imports = []      # (prefix, module name, revision-date or "")
+        self.includes = []     # (submodule name, revision-date or "")
         self.idents = []       # [name, [base strings]]
         self.typedefs = []     # (name, base string)
         self.leaves = []       # (name, 'ref', base string) | (name, 'td', typename-with-prefix, ctx Mod, base string)
@@ -46,11 +55,33 @@ class Schema:
         self.auto = []         # parts that the auto-loaded run leaves to Process to load from the search path
         self.late = []         # submodules that the history run parses only after a first Process
 
-    def find(self, sub, name):
+    def reg_get(self, sub, key):
+        """ms.Modules[key] / ms.SubModules[key]: a bare name denotes the latest revision"""
+        best = None
         for m in self.mods:
-            if m.sub == sub and m.name == name:
+            if m.sub == sub and m.name == key and (best is None or full(best) < full(m)):
+                best = m
+        if best is not None:
+            return best
+        for m in self.mods:
+            if m.sub == sub and m.rev and full(m) == key:
                 return m
         return None
+
+    def find_module(self, sub, name, date):
+        return self.reg_get(sub, name + "@" + date if date else name) or self.reg_get(sub, name)
+
+    def find(self, sub, name):
+        return self.reg_get(sub, name)
+
+    def in_maps(self, m):
+        """m is a value of ms.Modules / ms.SubModules (a module without revision statement loses its only key,
+        the bare name, to a loaded revision of the same name)"""
+        return self.reg_get(m.sub, m.name) is m or (m.rev != "" and self.reg_get(m.sub, full(m)) is m)
+
+    def multi(self, m):
+        """another revision of m is part of the schema"""
+        return any(o is not m and o.sub == m.sub and o.name == m.name for o in self.mods)
 
     def owner_name(self, m):
         if m.sub:
@@ -69,20 +100,51 @@ class Schema:
             if any(y is x for y in out):
                 continue
             out.append(x)
-            for n in x.includes:
-                s = self.find(True, n)
+            for n, d in x.includes:
+                s = self.find_module(True, n, d)
                 if s is not None:
                     todo.append(s)
         return out
 
+    def filing(self):
+        """reference reading of the registration loop: dictionary key -> set of declarations (part, identity name)"""
+        keys = []
+        for m in self.mods:
+            if not m.sub:
+                keys.append(m.name)
+                if m.rev:
+                    keys.append(full(m))
+        seen, files = [], {}
+        for k in sorted(set(keys), key=lambda x: x.encode()):
+            md = self.reg_get(False, k)
+            if md is None or any(md is x for x in seen):
+                continue
+            seen.append(md)
+            for m in self.whole(md):
+                o = md
+                if m.sub and m.belongs != md.name:
+                    o = self.reg_get(False, m.belongs) or m
+                for n, _ in m.idents:
+                    files.setdefault(full(o) + ":" + n, set()).add((id(m), n))
+        return files
+
     def visible_parts(self):
         out = []
         for m in self.mods:
-            if not m.sub:
+            if not m.sub and self.in_maps(m):
                 for p in self.whole(m):
                     if not any(p is q for q in out):
                         out.append(p)
         return out
+
+
+def full(m):
+    return m.name + "@" + m.rev if m.rev else m.name
+
+
+def did(m, idname):
+    """the name of a declaration: full name of the declaring (sub)module : identity name"""
+    return full(m) + ":" + idname
 
 
 def ref_string(rnd, sc, src, target_part, idname, fresh_prefix=True):
@@ -92,22 +154,22 @@ def ref_string(rnd, sc, src, target_part, idname, fresh_prefix=True):
     if town == sc.owner_name(src):
         return rnd.choice(["", src.prefix + ":"]) + idname
     firsts = {}
-    for p, n in src.imports:
+    for p, n, _ in src.imports:
         firsts.setdefault(p, n)
     for p, n in firsts.items():
         if n == town and p != src.prefix and p != "" and rnd.random() < 0.7:
             return p + ":" + idname
-    used = {src.prefix} | {p for p, _ in src.imports}
+    used = {src.prefix} | {p for p, _, _ in src.imports}
     cand = [p for p in PREFIXES if p not in used]
     p = rnd.choice(cand) if cand else "zz%d" % len(src.imports)
-    src.imports.append((p, town))
+    src.imports.append((p, town, ""))
     return p + ":" + idname
 
 
 def choose_auto(rnd, sc):
     """family 'auto-loaded': some modules stay explicitly parsed; of the parts Process reaches from them through
     import and include statements (loading what is missing from the search path) a subset is only put on the path"""
-    modules = [m for m in sc.mods if not m.sub]
+    modules = [m for m in sc.mods if not m.sub and sc.in_maps(m)]
     roots = rnd.sample(modules, rnd.randint(1, len(modules)))
     reach, todo = [], list(roots)
     while todo:
@@ -115,34 +177,110 @@ def choose_auto(rnd, sc):
         if any(x is y for y in reach):
             continue
         reach.append(x)
-        for _, n in x.imports:
-            t = sc.find(False, n)
+        for _, n, d in x.imports:
+            t = sc.find_module(False, n, d)
             if t is not None:
                 todo.append(t)
-        for n in x.includes:
-            t = sc.find(True, n)
+        for n, d in x.includes:
+            t = sc.find_module(True, n, d)
             if t is not None:
                 todo.append(t)
-    cand = [m for m in reach if not any(m is r for r in roots)]
+    # (of a name with several revisions Process would fetch one only: such parts stay parsed)
+    cand = [m for m in reach if not any(m is r for r in roots) and not sc.multi(m)]
     if not cand:
         return []
     return rnd.sample(cand, rnd.randint(1, len(cand)))
 
 
 def consistent(sc):
-    """no two identity statements of the loaded modules (with their included submodules) get the same key"""
-    keys = [sc.key(p, n) for p in sc.visible_parts() for n, _ in p.idents]
-    return len(keys) == len(set(keys))
+    """no two identity statements are filed under the same dictionary key, none is declared twice in one part,
+    no two parts share a full name"""
+    if any(len(v) > 1 for v in sc.filing().values()):
+        return False
+    if any(len({n for n, _ in p.idents}) != len(p.idents) for p in sc.mods):
+        return False
+    return len({full(p) for p in sc.mods}) == len(sc.mods)
 
 
 def gen_schema(rnd):
     while True:
         sc = gen_schema1(rnd)
+        if sc.variant == "clean" and rnd.random() < 0.45:
+            revisionize(rnd, sc)
+        elif rnd.random() < 0.5:
+            date_some(rnd, sc)
+        rnd.shuffle(sc.mods)
+        vis = sc.visible_parts()
+        for m in sc.mods:      # see gen_schema1: what Modules.include never visits keeps its includes unresolved
+            if m.sub and not any(m is q for q in vis):
+                m.includes = []
         if consistent(sc):
             sc.auto = choose_auto(rnd, sc) if rnd.random() < 0.7 else []
             subs = [m for m in sc.mods if m.sub]
             sc.late = rnd.sample(subs, rnd.randint(1, len(subs))) if subs and rnd.random() < 0.7 else []
             return sc
+
+
+def date_some(rnd, sc):
+    """revision statements on some parts; imports / includes of them with a revision-date (the loaded one, or one
+    that is not loaded: FindModule then falls back to the bare name)"""
+    for m in sc.mods:
+        if rnd.random() < 0.5:
+            m.rev = rnd.choice(DATES)
+    pin_some(rnd, sc)
+
+
+def pin_some(rnd, sc):
+    for m in sc.mods:
+        for lst, sub in ((m.imports, False), (m.includes, True)):
+            for j, it in enumerate(lst):
+                name = it[-2]
+                revs = [o.rev for o in sc.mods if o.sub == sub and o.name == name and o.rev]
+                r = rnd.random()
+                date = rnd.choice(revs) if revs and r < 0.45 else "1999-09-09" if r < 0.55 else ""
+                lst[j] = it[:-1] + (date,)
+
+
+def revisionize(rnd, sc):
+    """two or three loaded revisions of one module (and sometimes of a submodule): the same and different identities
+    in each, derived identities in each, submodules included by one or several of them, imports of them from other
+    modules with and without revision-date"""
+    sc.variant = "rev"
+    sc.edges = None
+    for m in sc.mods:      # typedef indirection off (cf. the free-form variant)
+        m.leaves = [lf if lf[1] == "ref" else (lf[0], "ref", lf[4]) if lf[3] is m else None for lf in m.leaves]
+        m.leaves = [lf for lf in m.leaves if lf is not None]
+        m.typedefs = []
+    date_some(rnd, sc)
+    modules = [m for m in sc.mods if not m.sub]
+    subs = [m for m in sc.mods if m.sub]
+    nleaf = [0]
+
+    def clone(src, k):
+        dates = [d for d in DATES + [""] if d != src.rev and d not in [o.rev for o in sc.mods if o.sub == src.sub and o.name == src.name]]
+        c = Mod(src.name, src.sub, src.prefix if rnd.random() < 0.7 else rnd.choice(PREFIXES), src.belongs, rnd.choice(dates))
+        c.imports = list(src.imports)
+        c.includes = [i for i in src.includes if rnd.random() < 0.75]
+        c.idents = [[n, list(b)] for n, b in src.idents if rnd.random() < 0.8]
+        names = [n for n, _ in c.idents]
+        for _ in range(rnd.choice([0, 1, 1, 2])):
+            fresh = [n for n in IDNAMES if n not in names]
+            if not fresh:
+                break
+            n = rnd.choice(fresh)
+            bases = [rnd.choice(["", c.prefix + ":"]) + b for b in rnd.sample(names, min(len(names), rnd.choice([0, 1, 1, 2])))]
+            c.idents.append([n, bases])
+            names.append(n)
+        for lf in src.leaves:
+            nleaf[0] += 1
+            c.leaves.append(("%sr%d" % (lf[0], nleaf[0]), "ref", lf[2]))
+        return c
+    target = rnd.choice(modules)
+    for k in range(rnd.choice([1, 1, 2])):
+        sc.mods.append(clone(target, k))
+    if subs and rnd.random() < 0.35:
+        sc.mods.append(clone(rnd.choice(subs), 0))
+    pin_some(rnd, sc)
 
 
 def gen_schema1(rnd):
@@ -168,11 +306,11 @@ def gen_schema1(rnd):
         for i, s in enumerate(mine):
             for t in mine[i + 1:]:
                 if rnd.random() < 0.5:
-                    s.includes.append(t.name)
+                    s.includes.append((t.name, ""))
         for i, s in enumerate(mine):
-            nested = any(s.name in t.includes for t in mine)
+            nested = any(s.name in [n for n, _ in t.includes] for t in mine)
             if rnd.random() < (0.35 if nested else 0.9):
-                o.includes.append(s.name)
+                o.includes.append((s.name, ""))
     # a submodule that nobody includes is never visited by Modules.include: its own include statements stay
     # unresolved, which ToEntry reports (not an identity matter) -- give it none
     reach = sc.visible_parts()
@@ -207,7 +345,7 @@ def gen_schema1(rnd):
             if rnd.random() < dense / (1 + 0.15 * j):
                 s = ref_string(rnd, sc, part, bp, bn)
                 ident[1].append(s)
-                edges.append((sc.key(part, nm), sc.key(bp, bn)))
+                edges.append(((part, nm), (bp, bn)))
                 if rnd.random() < 0.08:
                     ident[1].append(s if rnd.random() < 0.5 else ref_string(rnd, sc, part, bp, bn))
         rnd.shuffle(ident[1])
@@ -237,8 +375,8 @@ def gen_schema1(rnd):
         sc.variant = "cyclic"
         sc.edges = None
         desc = {}
-        for c, b in edges:
-            desc.setdefault(b, set()).add(c)
+        for (cp_, cn_), (bp_, bn_) in edges:
+            desc.setdefault(sc.key(bp_, bn_), set()).add(sc.key(cp_, cn_))
 
         def closure(k):
             seen, todo = set(), [k]
@@ -270,7 +408,7 @@ def gen_schema1(rnd):
         elif k < 0.85 and part.imports:
             s = rnd.choice(part.imports)[0] + ":nosuch"
         else:
-            part.imports.append(("gh", "ghost"))
+            part.imports.append(("gh", "ghost", ""))
             s = "gh:x"
         ident[1].insert(rnd.randint(0, len(ident[1])), s)
     else:
@@ -286,21 +424,21 @@ def gen_schema1(rnd):
             if k < 0.25:
                 # second import with a prefix already used (first match wins), or the module's own prefix
                 tgt = rnd.choice([m.name for m in sc.mods if not m.sub])
-                p = rnd.choice([part.prefix] + [q for q, _ in part.imports] + PREFIXES[:3])
-                part.imports.insert(rnd.randint(0, len(part.imports)), (p, tgt))
+                p = rnd.choice([part.prefix] + [q for q, _, _ in part.imports] + PREFIXES[:3])
+                part.imports.insert(rnd.randint(0, len(part.imports)), (p, tgt, ""))
             elif k < 0.75 and allids:
                 ip, inm = rnd.choice(allids)
                 ident = [i for i in ip.idents if i[0] == inm][0]
-                pf = rnd.choice(["", ip.prefix + ":"] + [q + ":" for q, _ in ip.imports] + [rnd.choice(PREFIXES) + ":"])
+                pf = rnd.choice(["", ip.prefix + ":"] + [q + ":" for q, _, _ in ip.imports] + [rnd.choice(PREFIXES) + ":"])
                 ident[1].append(pf + rnd.choice(IDNAMES[:6]))
             elif k < 0.85 and subs:
                 s = rnd.choice(subs)
                 s.belongs = rnd.choice(["ghost"] + [m.name for m in sc.mods if not m.sub])
             elif k < 0.95 and subs:
                 # a submodule included by somebody else as well (possibly by a module it does not belong to)
-                rnd.choice(modules).includes.append(rnd.choice(subs).name)
+                rnd.choice(modules).includes.append((rnd.choice(subs).name, ""))
             else:
-                rnd.choice(sc.visible_parts()).includes.append("ghostsub")
+                rnd.choice(sc.visible_parts()).includes.append(("ghostsub", ""))
     return sc
 
 
@@ -315,10 +453,12 @@ def yang_text(m):
         out.append("module %s {" % m.name)
         out.append('  namespace "urn:%s";' % m.name)
         out.append("  prefix %s;" % m.prefix)
-    for p, n in m.imports:
-        out.append("  import %s { prefix %s; }" % (n, p))
-    for n in m.includes:
-        out.append("  include %s;" % n)
+    for p, n, d in m.imports:
+        out.append("  import %s { prefix %s;%s }" % (n, p, " revision-date %s;" % d if d else ""))
+    for n, d in m.includes:
+        out.append("  include %s%s" % (n, " { revision-date %s; }" % d if d else ";"))
+    if m.rev:
+        out.append("  revision %s;" % m.rev)
     for n, bases in m.idents:
         if bases:
             out.append("  identity %s { %s }" % (n, " ".join("base %s;" % b for b in bases)))
@@ -346,31 +486,35 @@ def go_line(sc, auto=False, late=False):
           ["L%d" % i for i, m in enumerate(sc.mods) if not any(m is a for a in on_path + held)]
     if held:
         ops += ["P"] + ["L%d" % i for i, m in enumerate(sc.mods) if any(m is a for a in held)]
-    toks = ["process", "-", ",".join(ops + ["P"]), str(len(sc.mods))]
+    toks = ["idproc", ",".join(ops + ["P"]), str(len(sc.mods))]
     for m in sc.mods:
         toks += [hx(m.name + ".yang"), hx(yang_text(m))]
     return " ".join(toks)
 
 
 def refs_of(sc):
-    """identityref type statements: (leaf name, sub, module name of the type statement, base string)"""
+    """identityref type statements: (leaf name, sub, full name of the module of the type statement, base string)"""
     out = []
     for m in sc.mods:
+        if not sc.in_maps(m):
+            continue       # never converted to an Entry tree
         for lf in m.leaves:
             if lf[1] == "ref":
-                out.append((lf[0], m.sub, m.name, lf[2]))
+                out.append((lf[0], m.sub, full(m), lf[2]))
             else:
-                out.append((lf[0], lf[3].sub, lf[3].name, lf[4]))
+                out.append((lf[0], lf[3].sub, full(lf[3]), lf[4]))
     return out
 
 
 def ml_line(sc, oracles):
     toks = ["idres"] + [str(o) for o in oracles] + [str(len(sc.mods))]
     for m in sc.mods:
-        toks += [hx(m.name), "1" if m.sub else "0", hx(m.prefix), hx(m.belongs), str(len(m.imports))]
-        for p, n in m.imports:
-            toks += [hx(p), hx(n)]
-        toks += [str(len(m.includes))] + [hx(n) for n in m.includes]
+        toks += [hx(m.name), "1" if m.sub else "0", hx(m.rev), hx(m.prefix), hx(m.belongs), str(len(m.imports))]
+        for p, n, d in m.imports:
+            toks += [hx(p), hx(n), hx(d)]
+        toks.append(str(len(m.includes)))
+        for n, d in m.includes:
+            toks += [hx(n), hx(d)]
         toks.append(str(len(m.idents)))
         for n, bases in m.idents:
             toks += [hx(n), str(len(bases))] + [hx(b) for b in bases]
@@ -388,82 +532,60 @@ def unhex(h):
 
 
 def parse_ml(line):
-    """-> ('err'|'fuel'|'bad', None, None) or ('ok', {key: [values]}, [base keys])"""
+    """-> ('err'|'fuel'|'bad:..', None, None) or ('ok', {declaration: [values]}, [base declarations])
+    (the model prints, per dictionary key, the declaration filed there and its Values)"""
     if not line.startswith("ok"):
         return (line if line in ("err", "fuel") else "bad:" + line[:80]), None, None
     left, right = line[2:].split("|")
     vals = {}
     for t in left.split():
-        k, v = t.split("=")
-        vals[unhex(k)] = [unhex(x) for x in v.split(",")] if v else []
+        _k, dc, v = t.split("=")
+        v = [unhex(x) for x in v.split(",")] if v else []
+        if vals.setdefault(unhex(dc), v) != v:
+            return "bad:one declaration with two lists", None, None
     return "ok", vals, [unhex(x) for x in right.split()]
 
 
-def part_of_key(gk):
-    """(is submodule, name) of the (sub)module that declares the identity the harness calls gk"""
-    mod = gk.split(":", 1)[0]
-    return (True, mod.split("/", 1)[1]) if "/" in mod else (False, mod)
-
-
-def conv_key(sc, gk):
-    """the harness names an identity '<module>:<name>' or '<belongs-to>/<submodule>:<name>'"""
-    mod, name = gk.split(":", 1)
-    if "/" in mod:
-        b, s = mod.split("/", 1)
-        return (b if sc.find(False, b) else s) + ":" + name
-    return mod + ":" + name
-
-
-def walk_leaves(node, out):
-    if node is None:
-        return
-    if node.get("kind") == "Leaf" and node.get("type") is not None:
-        out.setdefault(node["name"], []).append(node["type"])
-    for c in node.get("children") or []:
-        walk_leaves(c, out)
+def conv_decl(gd):
+    """the harness names a declaration '<M|S>/<full name>:<identity>'"""
+    return gd.split("/", 1)[1]
 
 
 def parse_go(sc, line):
-    """-> ('err'|'ok'|'broken:..', {key: [[values] per declaration]}, {leaf: [(base, [values])]})"""
+    """-> ('err'|'ok'|'broken:..', {declaration: [values]}, {leaf: [[base, [values]], ..]})"""
     if not line.startswith("{"):
         return "broken:" + line[:200], None, None
     o = json.loads(line)
     if "err" in o["loads"]:
         return "broken:parse-failed", None, None
-    run = o["runs"][-1]
-    if run["errors"]:
+    if o["errors"]:
         return "err", None, None
     vals, leaves = {}, {}
-    for m in run["modules"]:
-        for i in m.get("identities") or []:
-            vals.setdefault(conv_key(sc, i["name"]), []).append((list(part_of_key(i["name"])),
-                                                                 [conv_key(sc, v) for v in i["values"]]))
-        lf = {}
-        walk_leaves(m.get("tree"), lf)
-        for n, ts in lf.items():
-            for t in ts:
-                # (a submodule included by two modules is merged into the tree of only one of them, which one
-                # depends on map order -- C05/C13 matter: only the distinct observations of a leaf are kept)
-                if "idbase" in t:
-                    ob = [conv_key(sc, t["idbase"]), [conv_key(sc, v) for v in t.get("idvalues") or []]]
-                else:
-                    ob = [None, []]
-                if ob not in leaves.setdefault(n, []):
-                    leaves[n].append(ob)
+    for i in o["ids"]:
+        dc = conv_decl(i["decl"])
+        if dc in vals:
+            return "broken:two declarations named " + dc, None, None
+        vals[dc] = [conv_decl(v) for v in i["values"]]
+    for lf in o["leaves"]:
+        # (a submodule included by two modules is merged into the tree of only one of them, which one depends
+        # on map order -- C05/C13 matter: only the distinct observations of a leaf are kept)
+        ob = [None, []] if lf["base"] == "<nil>" else [conv_decl(lf["base"]), [conv_decl(v) for v in lf["values"]]]
+        if ob not in leaves.setdefault(lf["name"], []):
+            leaves[lf["name"]].append(ob)
     for n in leaves:
         leaves[n].sort(key=json.dumps)
     return "ok", vals, leaves
 
 
 def expected(sc):
-    """for a schema whose derivation graph is known: key -> sorted list of derived keys"""
+    """for a schema whose derivation graph is known: declaration -> sorted list of derived declarations"""
     keys = {}
     for p in sc.visible_parts():
         for n, _ in p.idents:
-            keys[sc.key(p, n)] = n
+            keys[did(p, n)] = (n, sc.owner_name(p) + ":" + n, full(p))
     kids = {}
-    for c, b in sc.edges:
-        kids.setdefault(b, set()).add(c)
+    for (cp, cn), (bp, bn) in sc.edges:
+        kids.setdefault(did(bp, bn), set()).add(did(cp, cn))
     exp = {}
     for k in keys:
         seen, todo = set(), [k]
@@ -473,7 +595,7 @@ def expected(sc):
                 if y not in seen:
                     seen.add(y)
                     todo.append(y)
-        exp[k] = sorted(seen, key=lambda y: (keys[y].encode(), y.encode()))
+        exp[k] = sorted(seen, key=lambda y: tuple(f.encode() for f in keys[y]))
     return exp
 
 
@@ -520,25 +642,16 @@ def judge_explicit(sc, go3, mls):
         return "a %s schema is accepted" % sc.variant
     if g[0] != "ok":
         return None
-    gleaves = g[2]
+    gvals, gleaves = g[1], g[2]
     mvals, mbases = m[1], m[2]
-    vis = [(p.sub, p.name) for p in sc.visible_parts()]
-    gvals = {}     # identities declared in parts the dictionary is built from
-    for k, decls in g[1].items():
-        for (sub, pname), v in decls:
-            if (sub, pname) in vis:
-                gvals.setdefault(k, []).append(v)
-            elif v:
-                return "identity %s of %s, which no loaded module includes, has Values %s" % (k, pname, v)
     for k, v in mvals.items():
         if k not in gvals:
             return "identity %s of the model's dictionary is not declared in the implementation's dump" % k
-        for decl in gvals[k]:
-            if decl != v:
-                return "Values of %s: impl=%s model=%s" % (k, decl, v)
-    for k, decls in gvals.items():
-        if k not in mvals:
-            return "identity %s is not in the model's dictionary" % k
+        if gvals[k] != v:
+            return "Values of %s: impl=%s model=%s" % (k, gvals[k], v)
+    for k, v in gvals.items():
+        if k not in mvals and v:
+            return "identity %s, which is not in the model's dictionary, has Values %s" % (k, v)
     refs = refs_of(sc)
     for (leaf, _, _, _), bk in zip(refs, mbases):
         for gb, gv in gleaves.get(leaf, [[None, []]]):
@@ -550,7 +663,7 @@ def judge_explicit(sc, go3, mls):
             return "identityref leaf %s not found in the dump" % leaf
     if sc.edges is not None:
         exp = expected(sc)
-        if exp != {k: v[0] for k, v in gvals.items() if k in exp} or set(exp) != set(mvals):
+        if exp != {k: v for k, v in gvals.items() if k in exp} or set(exp) != set(mvals):
             return "implementation differs from the expected closure: expected=%s impl=%s" % (exp, gvals)
     return None
 
@@ -569,50 +682,50 @@ def fixed_schemas():
     a = Mod("a", False, "pa")
     s1 = Mod("s1", True, "pa", "a")
     s2 = Mod("s2", True, "zz", "a")
-    a.includes = ["s1"]
-    s1.includes = ["s2"]
+    a.includes = [("s1", "")]
+    s1.includes = [("s2", "")]
     a.idents = [["top", []], ["l", ["top"]]]
     s1.idents = [["r", ["pa:top"]]]
     s2.idents = [["bot", ["zz:l", "r"]]]
     b = Mod("b", False, "pb")
-    b.imports = [("x", "a")]
+    b.imports = [("x", "a", "")]
     b.idents = [["bot", ["x:bot"]], ["l", ["x:top"]]]
     b.leaves = [("l0", "ref", "x:top")]
     sc = mk("clean", a, s1, s2, b)
-    sc.edges = [("a:l", "a:top"), ("a:r", "a:top"), ("a:bot", "a:l"), ("a:bot", "a:r"), ("b:bot", "a:bot"),
-                ("b:l", "a:top")]
+    sc.edges = [((a, "l"), (a, "top")), ((s1, "r"), (a, "top")), ((s2, "bot"), (a, "l")), ((s2, "bot"), (s1, "r")),
+                ((b, "bot"), (s2, "bot")), ((b, "l"), (a, "top"))]
     sc.late = [s1, s2]
     out.append(sc)
     # the module is processed before the submodule it includes is parsed; then again
     m = Mod("m", False, "m")
     sub = Mod("sub", True, "m", "m")
-    m.includes = ["sub"]
+    m.includes = [("sub", "")]
     m.idents = [["root", []], ["kid", ["root"]], ["grandkid", ["kid"]], ["uses-sub", ["sub-root"]]]
     m.leaves = [("l0", "ref", "root")]
     sub.idents = [["sub-root", []], ["from-sub", ["sub-root"]], ["kid2", ["m:root"]]]
     sc = mk("clean", m, sub)
-    sc.edges = [("m:kid", "m:root"), ("m:grandkid", "m:kid"), ("m:uses-sub", "m:sub-root"), ("m:from-sub", "m:sub-root"),
-                ("m:kid2", "m:root")]
+    sc.edges = [((m, "kid"), (m, "root")), ((m, "grandkid"), (m, "kid")), ((m, "uses-sub"), (sub, "sub-root")),
+                ((sub, "from-sub"), (sub, "sub-root")), ((sub, "kid2"), (m, "root"))]
     sc.late = [sub]
     out.append(sc)
     # a parsed module derives from, and refers to, identities of a module only Process loads; and a chain of two
     root = Mod("root", False, "r")
     root.idents = [["ROOT", []], ["INNER", ["ROOT"]]]
     mid = Mod("mid", False, "m")
-    mid.imports = [("rt", "root")]
+    mid.imports = [("rt", "root", "")]
     mid.idents = [["MID", ["rt:ROOT"]]]
     top = Mod("top", False, "t")
-    top.imports = [("root", "root")]
+    top.imports = [("root", "root", "")]
     top.idents = [["LOCAL", ["root:ROOT"]], ["LOCAL2", ["LOCAL"]]]
     top.leaves = [("l0", "ref", "root:ROOT")]
     sc = mk("clean", root, top)
-    sc.edges = [("root:INNER", "root:ROOT"), ("top:LOCAL", "root:ROOT"), ("top:LOCAL2", "top:LOCAL")]
+    sc.edges = [((root, "INNER"), (root, "ROOT")), ((top, "LOCAL"), (root, "ROOT")), ((top, "LOCAL2"), (top, "LOCAL"))]
     sc.auto = [root]
     out.append(sc)
     top2 = Mod("top2", False, "t2")
-    top2.imports = [("mid", "mid")]
+    top2.imports = [("mid", "mid", "")]
     sc = mk("clean", root, mid, top2)
-    sc.edges = [("root:INNER", "root:ROOT"), ("mid:MID", "root:ROOT")]
+    sc.edges = [((root, "INNER"), (root, "ROOT")), ((mid, "MID"), (root, "ROOT"))]
     sc.auto = [root, mid]
     out.append(sc)
     # self base, two-cycle, cycle through two modules
@@ -624,8 +737,8 @@ def fixed_schemas():
     out.append(mk("cyclic", m))
     m = Mod("a", False, "p")
     n = Mod("b", False, "p")
-    m.imports = [("q", "b")]
-    n.imports = [("q", "a")]
+    m.imports = [("q", "b", "")]
+    n.imports = [("q", "a", "")]
     m.idents = [["x", ["q:x"]]]
     n.idents = [["x", ["q:x"]]]
     out.append(mk("cyclic", m, n))
@@ -633,7 +746,7 @@ def fixed_schemas():
     for bases in (["nosuch"], ["q:nosuch"], ["zz:x"]):
         m = Mod("a", False, "p")
         n = Mod("b", False, "p")
-        m.imports = [("q", "b")]
+        m.imports = [("q", "b", "")]
         m.idents = [["x", bases]]
         n.idents = [["x", []]]
         out.append(mk("dangling", m, n))
@@ -642,12 +755,35 @@ def fixed_schemas():
     s.idents = [["y", []]]
     m.idents = [["x", ["y"]]]
     out.append(mk("dangling", m, s))
+    # two loaded revisions of one module define the same and different identities; an import without
+    # revision-date sees the latest, one with revision-date that revision; a submodule included by both
+    for with_sub in (False, True):
+        m0 = Mod("m", False, "m", rev="2020-01-01")
+        m1 = Mod("m", False, "mm", rev="2021-06-15")
+        m0.idents = [["b", []], ["c", ["b"]], ["only0", ["m:c"]]]
+        m1.idents = [["b", []], ["d", ["b"]], ["c", ["mm:d"]]]
+        m0.leaves = [("l0", "ref", "b")]
+        m1.leaves = [("l1", "ref", "mm:b")]
+        u = Mod("u", False, "u")
+        u.imports = [("new", "m", ""), ("old", "m", "2020-01-01"), ("gone", "m", "1999-09-09")]
+        u.idents = [["un", ["new:b"]], ["uo", ["old:b", "old:c"]], ["ug", ["gone:d"]], ["b", ["new:c"]]]
+        u.leaves = [("l2", "ref", "old:b"), ("l3", "ref", "new:b")]
+        mods = [m1, u, m0]
+        if with_sub:
+            s = Mod("s", True, "m", "m", rev="2019-03-09")
+            s.idents = [["x", ["b"]], ["y", ["m:x", "c"]]]
+            s.leaves = [("l4", "ref", "b")]
+            m0.includes = [("s", "")]
+            m1.includes = [("s", "2019-03-09")]
+            u.idents.append(["ux", ["old:x"]])
+            mods.append(s)
+        out.append(mk("rev", *mods))
     return out
 
 
 # ------------------------------------------------------------------ run
 
-ORACLES = [(0, 0, 0), (1, 1, 1), (2, 1, 3), (4, 2, 0)]
+ORACLES = [(0, 0), (1, 1), (1, 3), (2, 0)]
 GO_RUNS = 3
 
 
@@ -730,8 +866,7 @@ def replay_of(sc):
                 auto_case=go_line(sc, auto=True) if sc.auto else None, auto_parts=[m.name for m in sc.auto],
                 late_case=go_line(sc, late=True) if sc.late else None, late_parts=[m.name for m in sc.late],
                 ml_cases=[ml_line(sc, o) for o in ORACLES],
-                texts={m.name + (".sub" if m.sub else "") + ".yang": yang_text(m) for m in sc.mods},
-                conv=dict(modules=[m.name for m in sc.mods if not m.sub]))
+                texts={full(m) + (".sub" if m.sub else "") + ".yang": yang_text(m) for m in sc.mods})
 
 
 def run(res, tier, seed, proof):
@@ -740,7 +875,7 @@ def run(res, tier, seed, proof):
     auto = run_family(schemas, "auto", timeout=240 if tier == "quick" else 1500)
     late = run_family(schemas, "late", timeout=240 if tier == "quick" else 1500)
     hist = dict(auto_loaded=sum(1 for a in auto if a is not None), late_submodules=sum(1 for a in late if a is not None),
-                clean=0, cyclic=0, dangling=0, free=0, accepted=0, rejected=0, with_submodule=0, with_leaf=0,
+                rev=0, rev_accepted=0, clean=0, cyclic=0, dangling=0, free=0, accepted=0, rejected=0, with_submodule=0, with_leaf=0,
                 max_values=0, identities=0)
     nontrivial = set()
     mism = 0
@@ -754,6 +889,7 @@ def run(res, tier, seed, proof):
             continue
         st, vals, _ = parse_ml(ms[0])
         hist["accepted" if st == "ok" else "rejected"] += 1
+        hist["rev_accepted"] += (sc.variant == "rev" and st == "ok")
         hist["with_submodule"] += any(m.sub for m in sc.mods)
         hist["with_leaf"] += any(m.leaves for m in sc.mods)
         if st == "ok":
@@ -768,10 +904,13 @@ def run(res, tier, seed, proof):
     cov = dict(
         evaluations=len(schemas) * (GO_RUNS + len(ORACLES)) + hist["auto_loaded"] + hist["late_submodules"], schemas=len(schemas), distinct_nontrivial=len(nontrivial),
         rule="random schemas: 1-3 modules, 0-3 submodules (includes form a DAG, nested includes, submodules nobody "
-             "includes), 0-12 identities with equal names in different modules, several bases per identity (DAG, "
+             "includes), revision statements and revision-dates on imports/includes (loaded or not), 0-12 identities with equal names in different modules, several bases per identity (DAG, "
              "diamonds, repeated base statements), arbitrary and clashing prefixes, identityref leaves directly and "
              "through typedefs in other modules; variants: clean / derivation cycle added / unresolvable base added / "
-             "free-form mutations (duplicate import prefixes, foreign includes, unloaded belongs-to, random bases); "
+             "free-form mutations (duplicate import prefixes, foreign includes, unloaded belongs-to, random bases) / rev: "
+             "2-3 loaded revisions of one module (sometimes of a submodule too) with the same and different "
+             "identities, submodules included by one or several revisions, pinned and unpinned imports -- no "
+             "expectation, the model decides (rev_accepted counts the accepted ones); "
              "each schema: %d implementation runs, %d model runs with different iteration oracles; family auto-loaded: "
              "for most schemas one more implementation run in which a subset of the imported modules / included "
              "submodules is not parsed but put on the search path, so that Process loads it itself -- the result "
@@ -785,9 +924,9 @@ def run(res, tier, seed, proof):
     )
     assumptions = [
         "the YANG texts given to Modules.Parse and the abstract schema given to the model are renderings of the same "
-        "generated schema (one loaded module per name, no revisions; harness runs in an empty directory)",
-        "identity names are unique within a module together with its submodules (duplicate definitions overwrite "
-        "each other in the dictionary; the theorems assume a consistent dictionary)",
+        "generated schema (module names without '@'; harness runs in an empty directory)",
+        "no two identity statements are filed under one dictionary key, none is declared twice in one (sub)module, no "
+        "module shares its full name with a submodule (the model names an *Identity by declaring (sub)module and name)",
         "Modules.include's early return on the first missing import/include is modelled only as 'an error is reported'",
         "sort.SliceStable is modelled as a stable insertion sort; string comparison as bytewise lexicographic order",
     ]
@@ -810,31 +949,16 @@ def replay(rep, res):
     for n, t in sorted(rep.get("texts", {}).items()):
         print("---- %s\n%s" % (n, t))
 
-    class Conv:
-        def __init__(self, mods):
-            self.mods = mods
-
-        def find(self, sub, name):
-            return (not sub) and name in self.mods
-    cv = Conv(rep["conv"]["modules"])
     obs = []
     for g in gos:
-        o = json.loads(g) if g.startswith("{") else None
-        if o is None:
-            print("impl :", g[:300])
-            obs.append(("broken",))
-            continue
-        run = o["runs"][-1]
-        if run["errors"]:
-            print("impl : err", run["errors"][:3])
-            obs.append(("err",))
+        st, vals, leaves = parse_go(None, g)
+        if st == "ok":
+            print("impl : ok", json.dumps(vals, sort_keys=True), json.dumps(leaves, sort_keys=True))
+        elif st == "err":
+            print("impl : err", json.loads(g).get("errtext"))
         else:
-            ids = {}
-            for m in run["modules"]:
-                for i in m.get("identities") or []:
-                    ids[conv_key(cv, i["name"])] = [conv_key(cv, v) for v in i["values"]]
-            print("impl : ok", json.dumps(ids, sort_keys=True))
-            obs.append(("ok", ids))
+            print("impl :", st[:300])
+        obs.append((st, vals, leaves))
     same = len({json.dumps(o, sort_keys=True) for o in obs}) == 1
     okm = True
     for m in mls:
